@@ -751,8 +751,13 @@ def _ctor_roundtrip(world, m0):
         cov = np.asarray(a["covariance"], np.float32).astype(np.float64)
         got = np.asarray(m0.covariance, np.float64)
         n += 1
-        if not np.all(np.abs(got - cov) <= 1e-4 * np.max(np.abs(cov))):
-            V.append({"clause": "c11.ctor_roundtrip", "detail": f"MultivariateNormal.covariance: max abs error {np.max(np.abs(got - cov))} for scale {np.max(np.abs(cov))}"})
+        # "up to rounding": the Cholesky factorisation is invariant under diagonal scaling, so each entry is
+        # reproduced relative to sqrt(cov_ii cov_jj) (the correlation matrices drawn have condition number <= 20)
+        sdv = np.sqrt(np.diag(cov))
+        tol = 1e-4 * np.outer(sdv, sdv)
+        if got.shape != cov.shape or not np.all(np.abs(got - cov) <= tol):
+            bad = np.unravel_index(np.argmax(np.abs(got - cov) / tol), cov.shape) if got.shape == cov.shape else None
+            V.append({"clause": "c11.ctor_roundtrip", "detail": f"MultivariateNormal.covariance: entry {bad} constructed with {cov[bad] if bad else None}, accessor gives {got[bad] if bad else got.shape} (variances {np.diag(cov)})"})
     if name == "VmapMixture":
         from flowjax.wrappers import unwrap
 
